@@ -581,7 +581,7 @@ def subscript(I, run, base: Value, idx, node) -> Value:
                 if not c.open and not c.sym_items:
                     I.raise_builtin(run, "KeyError", node, idx)
                 if _memo_bool(I, run, ("in", idx.key(), base.key()), node, f"{idx!r} in {I.describe(run, base)}"):
-                    return App("index", (base, idx))
+                    return App("index", (base, idx), c.value_kind)
                 I.raise_builtin(run, "KeyError", node, idx)
             for k, v in c.sym_items:
                 if k.key() == idx.key():
@@ -882,7 +882,7 @@ def _dict_method(I, run, recv, c: HDict, name, args, kwargs, node) -> Value:
                     c.items[k.v] = default
                 return default
             if _memo_bool(I, run, ("in", k.key(), recv.key()), node, f"{k!r} in {I.describe(run, recv)}"):
-                return App("index", (recv, k))
+                return App("index", (recv, k), c.value_kind)
             return default
         for kk, vv in c.sym_items:
             if kk.key() == k.key():
